@@ -1,6 +1,6 @@
 """Property -> rules wiring and MANIFEST metadata."""
 from . import facts
-from .rules import f5_trace, f6_kinds, f7_roots, f4_gc, f4_chan, f4_sched, f4_vm, f1_isa, f9_casts, f10_parity, f2_emit, f4_exc, f4_cache, f4_obj
+from .rules import f5_trace, f6_kinds, f7_roots, f4_gc, f4_chan, f4_sched, f4_vm, f1_isa, f9_casts, f10_parity, f2_emit, f4_exc, f4_cache, f4_obj, f11_peephole
 
 
 def D(rec):
@@ -60,6 +60,13 @@ def c04(rec, tier):
     f4_exc.run(rec, F)
     T = f1_isa.run_tables(rec, F)
     f1_isa.run_effect(rec, F, T, only=("PushHandler", "PopHandler", "CheckHandler", "FinishUnwind", "ContinueUnwind", "GetError", "Raise"))
+
+
+def c12(rec, tier):
+    F = D(rec)
+    S = SY(rec)
+    f11_peephole.run(rec, F, S)
+    f2_emit.run_slots(rec, S)
 
 
 def c13(rec, tier):
@@ -147,6 +154,7 @@ def c16(rec, tier):
     f6_kinds.run(rec, F)
     f2_emit.run_provenance(rec, S)
     f2_emit.run_constant_kinds(rec, S, F)
+    f4_sched.launch_transfers_callee_slot(rec, F)
 
 
 def c17(rec, tier):
@@ -168,7 +176,7 @@ def c19(rec, tier):
     f4_vm.diagnostics_gate(rec, F)
 
 
-CHECKS = {"C02": c02, "C03": c03, "C04": c04, "C13": c13, "C05": c05, "C06": c06, "C10": c10, "C11": c11, "C14": c14, "C07": c07, "C08": c08, "C09": c09, "C15": c15, "C16": c16, "C17": c17, "C18": c18, "C19": c19, "C20": c20}
+CHECKS = {"C12": c12, "C02": c02, "C03": c03, "C04": c04, "C13": c13, "C05": c05, "C06": c06, "C10": c10, "C11": c11, "C14": c14, "C07": c07, "C08": c08, "C09": c09, "C15": c15, "C16": c16, "C17": c17, "C18": c18, "C19": c19, "C20": c20}
 
 META = {
     "C02": {
@@ -188,6 +196,12 @@ META = {
         "note": "Emission-flow obligations (F3: linear depth = real depth at every try) are in the thorough tier.",
         "technique": "static analysis: emission-order queries on the syntax tree + MIR dominance/def-use + handler dataflow",
         "design_ref": "DESIGN.md §3 C04",
+    },
+    "C12": {
+        "text": "Rule-table verification of the optimiser by abstract execution of the VecCursor operations of all 15 window arms and 6 rewrites on a symbolic window: code and line cursors advance in lock step on every path (lines stay attached); what is consumed is the matched prefix or a run of the matched instruction; stack effect consumed = stack effect written (from the ISA tables); patterns name concrete variants and runs stop at Label; written operands are the pattern's bindings; store/reload elimination is guarded by slot equality on twin ops; dead-code removal only after instructions whose handlers have no fall-through path; fused invokes keep their cache slot. These are necessary conditions of semantic preservation; full observational equivalence of a same-effect/same-operand replacement with a different opcode is declined.",
+        "note": "Loop bodies are summarised as k iterations with a constant per-iteration delta; constructs outside that model are listed as unanalysed and the analysed-arm floor fails closed.",
+        "technique": "static analysis: abstract interpretation of cursor operations over the syntax tree (symbolic window, linear forms in loop counts)",
+        "design_ref": "DESIGN.md §3 C12, §2 F11",
     },
     "C13": {
         "text": "In every cache-using handler the probed class is the filled class with the instruction's single slot operand; the cached payload was looked up on that class with the instruction's own name operand; every normally-ending path hits, fills or clears the slot (shadowing paths clear); lookups return their payload only on class equality; cache-using instructions are always followed by their slot pseudo-op; cache coverage for re-compiled modules; cache entries hold raw class pointers so the cache must be a GC root or be invalidated by collection (F5 on Vm). Behaviour over receiver histories is declined.",
